@@ -31,7 +31,7 @@ ENCS_ORIGINS = (r'^param:encs$', r'^param:encapsulation\.encapsulations\.@(H|C)E
 
 def base_origin(u):
     """`elem(param:encs).0` (a for-loop variable) and `param:encs` (the receiver of an iterator chain) name the same source."""
-    o = u.origin
+    o = re.sub(r'~(rev|partial)', '', u.origin)
     m = re.match(r'^(?:elem\()+([^()]*)\)+(?:\.[^.]+)*$', o)
     return m.group(1) if m else o
 
@@ -63,7 +63,13 @@ def encs_like(u):
 
 
 def role(u):
-    """Scheme-level role of a transcript input."""
+    """Scheme-level role of a transcript input (marked when the source is not absorbed entirely / in its own order)."""
+    r = role_(u)
+    m = re.findall(r'~(rev|partial)', u.origin)
+    return r + ''.join('~' + x for x in sorted(set(m)))
+
+
+def role_(u):
     if u.origin.startswith('hash-output#'):
         return 'digest' + u.origin[-1]
     if u.kind == 'iter' and re.search(POINT, u.dtype):
